@@ -55,6 +55,23 @@ def bootstrap():
     logging.disable(logging.CRITICAL)
 
 
+def ensure_dep(module):
+    """Directory from which `module` (a wheel of /opt/veriftools/wheels) can be imported, installing it offline into a
+    scratch directory if neither the interpreter nor <verif>/.deps has it.  None if it cannot be provided."""
+    import importlib.util
+
+    for cand in (None, VERIF / ".deps", Path("/verif/.deps")):
+        if cand is None:
+            if importlib.util.find_spec(module) is not None:
+                return ""
+        elif (cand / module).exists():
+            return str(cand)
+    target = scratch_root() / "deps"
+    rc = subprocess.call([sys.executable, "-m", "pip", "install", "--no-index", "--find-links", "/opt/veriftools/wheels", "--target",
+                          str(target), "--quiet", module], stdout=subprocess.DEVNULL, stderr=subprocess.DEVNULL)
+    return str(target) if rc == 0 and (target / module).exists() else None
+
+
 class Violation(Exception):
     """The property under test does not hold for this case."""
 
